@@ -16,8 +16,10 @@ REQUIRED_THEOREMS = [
     "TapkeeVerif.C08.lle_const_eigvec",
     "TapkeeVerif.C08.ltsa_M_eq",
     "TapkeeVerif.C08.ltsa_const_null",
-    "TapkeeVerif.C08.hlle_cols_bijective_refuted",      # F-HLLE-CT open: becomes hlle_cols_bijective once the source is fixed
-    "TapkeeVerif.C08.hlle_cols_bijective_partial",
+    "TapkeeVerif.C08.hlle_cols_bijective",
+    "TapkeeVerif.C08.hlle_index_ok",
+    "TapkeeVerif.C08.hlleM_ok",
+    "TapkeeVerif.C08.hlle_prefix_update_refuted",       # regression witness of F-HLLE-CT (pre-fix recurrence)
     "TapkeeVerif.C08.hlle_cols_bijective_of_update",
     "TapkeeVerif.C08.smallest_skip_one_optimal",
     "TapkeeVerif.C08.ltsa_affine_on_flat_partial",
@@ -253,7 +255,7 @@ def correspond(ctx):
                 if l.startswith("op="):
                     replay_case(ctx, binary, l)
     plan = []
-    reps = 1 if quick else 12
+    reps = 3 if quick else 24
     for _ in range(reps):
         plan += [("lle", "lle")] * 16 + [("ltsa", "ltsa")] * 16 + [("hlle", "hlle")] * 12
         plan += [("embed", "klle")] * 14 + [("embed", "kltsa")] * 14 + [("embed", "hlle")] * 12
